@@ -2200,7 +2200,8 @@ impl<'comments> Formatter<'comments> {
                 let elements_document =
                     join(elements.iter().map(|e| self.pattern(e)), break_style());
                 let tail = tail.as_ref().map(|e| {
-                    if e.is_discard() {
+                    // NOTE: `..` is short for `.._`; a named discard keeps its name.
+                    if matches!(e.as_ref(), Pattern::Discard { name, .. } if name == "_") {
                         nil()
                     } else {
                         self.pattern(e)
